@@ -41,6 +41,8 @@
 #include <cds/container/feldman_hashmap_hp.h>
 #include <cds/container/feldman_hashmap_dhp.h>
 #include <cds/container/feldman_hashmap_rcu.h>
+#include <cds/intrusive/michael_list_hp.h>
+#include <cds/intrusive/split_list.h>
 #include <cds/intrusive/feldman_hashset_hp.h>
 #include <cds/intrusive/feldman_hashset_dhp.h>
 #include <memory>
@@ -456,6 +458,75 @@ template <class GC, bool Dyn> using SMapMichael = cc::SplitListMap<GC, long, lon
 template <class GC, bool Dyn> using SMapLazy = cc::SplitListMap<GC, long, long, sl_traits<cc::lazy_list_tag, ll_less, Dyn>>;
 template <class GC, bool Dyn> using SMapIter = cc::SplitListMap<GC, long, long, sl_traits<cc::iterable_list_tag, il_less, Dyn>>;
 
+// Tie A (atomic-trace conformance with the Lean machine lean/CdsVerif/Algo/SplitList/Model.lean): intrusive
+// SplitListSet<HP> over MichaelList<HP> with the DYNAMIC (expandable) bucket table, the configuration underneath
+// `sset_michael_hp`.  Every word the Lean machine models gets a name:
+//   b<i>   table entry of bucket i (the single table segment is allocated by the constructor)
+//   d<i>   m_pNext word of the i-th auxiliary (dummy) node of the first aux-node segment (d0 = bucket 0's dummy)
+//   n<j>   m_pNext word of the item brought by the j-th INVOKED insert (the order in which the machine allocates)
+//   cnt2 = m_nBucketCountLog2, maxc = m_nMaxItemCount, items = m_ItemCounter, acnt = aux_node_count of the segment
+// The table is created for 64 items (capacity 64 = segment size 64): with at most 14 operations per case the first
+// aux-node segment is never exhausted, so neither the free list of aux nodes nor a second segment is ever used.
+// Only insert / erase / find / contains (keys and payloads of items are immutable).
+struct sl_item : ci::split_list::node< ci::michael_list::node<cds::gc::HP> > { long key; long val; };
+struct sl_list_traits : ci::michael_list::traits {
+    typedef ci::michael_list::base_hook< cds::opt::gc<cds::gc::HP> > hook;
+    typedef key_less less;
+    typedef noop_disposer disposer;
+};
+struct sl_set_traits : ci::split_list::traits {
+    typedef ident_hash hash;
+    static const bool dynamic_bucket_table = true;
+};
+struct IntrSplitNamed : IMap {
+    typedef ci::SplitListSet< cds::gc::HP, ci::MichaelList<cds::gc::HP, sl_item, sl_list_traits>, sl_set_traits > set_t;
+    std::unique_ptr<set_t> s;
+    std::vector<std::unique_ptr<sl_item>> items;
+    size_t named = 0;
+    static constexpr size_t c_cap = 64;
+    IntrSplitNamed() : s( new set_t( c_cap, 1 ))
+    {
+        can_update = false; can_extract = false;
+        char nm[32];
+        auto seg = s->m_Buckets.m_Segments[0].load();
+        for ( size_t i = 0; i < s->m_Buckets.m_metrics.nSegmentSize; ++i ) {
+            std::snprintf( nm, sizeof nm, "b%zu", i );
+            reg_name( &seg[i], sizeof( seg[i] ), nm );
+        }
+        auto aux = s->m_Buckets.m_auxNodeList.load();
+        reg_name( &aux->aux_node_count, sizeof( aux->aux_node_count ), "acnt" );
+        for ( size_t i = 0; i < s->m_Buckets.m_metrics.nSegmentSize; ++i ) {
+            std::snprintf( nm, sizeof nm, "d%zu", i );
+            reg_name( &aux->segment()[i].m_pNext, sizeof( aux->segment()[i].m_pNext ), nm );
+        }
+        reg_name( &s->m_nBucketCountLog2, sizeof( s->m_nBucketCountLog2 ), "cnt2" );
+        reg_name( &s->m_nMaxItemCount, sizeof( s->m_nMaxItemCount ), "maxc" );
+        reg_name( &s->m_ItemCounter.m_Counter, sizeof( s->m_ItemCounter.m_Counter ), "items" );
+        reg_name( &s->m_List.m_pHead, sizeof( s->m_List.m_pHead ), "head" );
+    }
+    ~IntrSplitNamed()
+    {
+        s.reset();
+        cds::gc::HP::force_dispose();
+    }
+    bool insert( long k, long v ) override
+    {
+        set_quiet( true );
+        sl_item* p = new sl_item;
+        set_quiet( false );
+        p->key = k; p->val = v;
+        items.emplace_back( p );
+        char nm[32];
+        std::snprintf( nm, sizeof nm, "n%zu", ++named );
+        reg_name( &p->m_pNext, sizeof( p->m_pNext ), nm );
+        return s->insert( *p );
+    }
+    std::pair<bool, bool> update( long, long, bool ) override { return std::make_pair( false, false ); }
+    bool erase( long k, long& v ) override { return s->erase( k, [&v]( sl_item const& item ) { v = item.val; } ); }
+    bool find( long k, long& v ) override { return s->find( k, [&v]( sl_item& item, long ) { v = item.val; } ); }
+    bool contains( long k ) override { return s->contains( k ); }
+};
+
 // ---------------------------------------------------------------- FeldmanHashSet / FeldmanHashMap
 
 struct fitem {
@@ -574,6 +645,8 @@ struct Fixture {
     std::function<void()> after;      // run after the container has been destroyed
     GenCfg gen;
     std::function<std::string()> info;   // extra "# ..." line after the history (e.g. final bucket count)
+    std::string hx;                      // extra words for the case header (configuration the Lean machine needs)
+    std::string header_extra() const { return hx; }
 
     template <class A> void put_sl( A* a )
     {
@@ -654,6 +727,13 @@ struct Fixture {
             else if ( v == "smap_lazy_gpi" ) { put_sl( new KVListML<SMapLazy<rcu_gpi, true>>( nItems, lf )); gpi(); m->lockfn = [] { rcu_gpi::access_lock(); }; m->unlockfn = [] { rcu_gpi::access_unlock(); }; }
             else if ( v == "sset_michael_nogc" ) put_sl( new SetListNogc<SSetMichael<NOGC, true>>( nItems, lf ));
             else if ( v == "sset_lazy_nogc_st" ) put_sl( new SetListNogc<SSetLazy<NOGC, false>>( nItems, lf ));
+        }
+        // tie A variant, not chosen at random (use --variant): see IntrSplitNamed
+        else if ( v == "isset_michael_hp_named" ) {
+            gen.maxkeys = 8;
+            gen.ins_heavy = ( c.index % 3 ) != 0;
+            m.reset( new IntrSplitNamed );
+            hx = std::string( "cap=64 lf=1 coll=" ) + ( g_split_coll ? "1" : "0" );
         }
         else if ( v[0] == 'f' || v[0] == 'i' ) {
             static unsigned const shifts[] = { 0, 3, 8, 13, 30, 56 };
